@@ -1577,12 +1577,15 @@ func unexpectedEmpty(parser *Parser, beginLoc int, openKind, closeKind lexer.Tok
 // to the next lex token after the closing token.
 // if zinteger is true, len(nodes) > 0
 func reverse(parser *Parser, openKind lexer.TokenKind, parseFn parseFn, closeKind lexer.TokenKind, zinteger bool) ([]interface{}, error) {
-	token, err := expect(parser, openKind)
-	if err != nil {
+	if _, err := expect(parser, openKind); err != nil {
 		return nil, err
 	}
 	var nodes []interface{}
 	for {
+		if zinteger && len(nodes) == 0 && peek(parser, closeKind) {
+			// the list must not be empty: the closing token is the unexpected one
+			return nodes, unexpectedEmpty(parser, parser.Token.Start, openKind, closeKind)
+		}
 		if skp, err := skip(parser, closeKind); err != nil {
 			return nil, err
 		} else if skp {
@@ -1593,9 +1596,6 @@ func reverse(parser *Parser, openKind lexer.TokenKind, parseFn parseFn, closeKin
 			return nodes, err
 		}
 		nodes = append(nodes, node)
-	}
-	if zinteger && len(nodes) == 0 {
-		return nodes, unexpectedEmpty(parser, token.Start, openKind, closeKind)
 	}
 	return nodes, nil
 }
